@@ -924,6 +924,88 @@ def _r4_loop(r: RuleResult, fi, lp: Loop, phi: Term, gen_mode: bool) -> None:
         (r.ok(label) if seen[k] else r.fail(f'_split_and_expr:{k}', f'missing case: {label}', fi.where))
 
 
+# ----------------------------------------------------------------------- R5b
+SUBST_CONTAINERS = [
+    # (class, method, the child fields the substitution must be carried into)
+    ('HplPredicateExpression', 'replace_var_reference', ('expression',)),
+    ('HplPredicateExpression', 'replace_self_reference', ('expression',)),
+    ('HplSimpleEvent', 'replace_var_reference', ('predicate',)),
+    ('HplEventDisjunction', 'replace_var_reference', ('event1', 'event2')),
+]
+SUBST_CONSTANTS = [('HplVacuousTruth', 'replace_var_reference'), ('HplVacuousTruth', 'replace_self_reference'),
+                   ('HplContradiction', 'replace_var_reference'), ('HplContradiction', 'replace_self_reference')]
+
+
+def R5b(ctx: Ctx) -> RuleResult:
+    r = RuleResult('R5b', 'substitutions are carried through the containers of an expression: a predicate / simple event / event disjunction answers replace_var_reference (replace_self_reference) with self.but(<child>=<child>.<same method>(<the same arguments, in order>)) for every child that can hold references, returning itself only when every child came back unchanged; the vacuous predicates return themselves')
+    n = 0
+    for cname, meth, fields in SUBST_CONTAINERS:
+        c = ctx.model.cls(cname, 'R5b')
+        fi = c.resolve(meth)
+        if fi is None:
+            raise AnalysisError('R5b', f'{cname}.{meth} not found')
+        ps = fi.params()
+        self_t = Sym('self', cname)
+        params = tuple(Sym(p_) for p_ in ps[1:])
+        outs = expand_outcomes(ctx.ev.run(fi, dict([('self', self_t)] + [(p_, Sym(p_)) for p_ in ps[1:]]), self_cls=c))
+        key = f'{cname}.{meth}'
+        want = {f: Call(BoundMethodOf(ctx, Attr(self_t, f), meth), params) for f in fields}
+        rebuilt = False
+        for o in outs:
+            n += 1
+            if o.kind != 'return':
+                r.fail(key + ':path', f'a path does not return a node: {o.kind} {str(o.value)[:60]}', fi.where)
+                continue
+            v = o.value
+
+            def is_subst(t: Term, f: str) -> bool:
+                return isinstance(t, Call) and call_name(t) == meth and call_recv(t) == Attr(self_t, f) and tuple(t.args) == params and not t.kwargs
+            if v == self_t:
+                lits = dict(implied_literals(o.guards, 12))
+                unchanged = {f for f in fields for g, pol in lits.items() if pol and isinstance(g, Op) and g.op == 'is' and len(g.args) == 2
+                             and Attr(self_t, f) in g.args and any(is_subst(x, f) for x in g.args)}
+                if unchanged != set(fields):
+                    r.fail(key + ':identity', f'returns itself without having established that {sorted(set(fields) - unchanged)} came back unchanged: the substitution is lost', f'{fi.module.relpath}:{o.lineno}')
+                continue
+            if isinstance(v, Call) and call_name(v) == 'but' and call_recv(v) == self_t and not v.args:
+                kw = dict(v.kwargs)
+                extra = sorted(set(kw) - set(fields))
+                if extra:
+                    r.fail(key + ':rebuild', f'the copy also changes {extra}', f'{fi.module.relpath}:{o.lineno}')
+                lits = dict(implied_literals(o.guards, 12))
+                for f in fields:
+                    if f in kw:
+                        if not is_subst(kw[f], f):
+                            r.fail(f'{key}:{f}', f'{f} becomes {str(kw[f])[:80]}, expected self.{f}.{meth}({", ".join(ps[1:])}) with the arguments as received', f'{fi.module.relpath}:{o.lineno}')
+                    else:
+                        same = any(pol and isinstance(g, Op) and g.op == 'is' and Attr(self_t, f) in g.args and any(is_subst(x, f) for x in g.args) for g, pol in lits.items())
+                        if not same:
+                            r.fail(f'{key}:{f}', f'the substitution is not carried into {f}', f'{fi.module.relpath}:{o.lineno}')
+                rebuilt = True
+                continue
+            r.fail(key + ':result', f'returns {str(v)[:80]}: neither the node itself nor a but() copy of it', f'{fi.module.relpath}:{o.lineno}')
+        if rebuilt:
+            r.ok(f'{key}: carried into {list(fields)}')
+        else:
+            r.fail(key + ':rebuild', 'no path rebuilds the node with the substituted children', fi.where)
+    for cname, meth in SUBST_CONSTANTS:
+        c = ctx.model.cls(cname, 'R5b')
+        fi = c.resolve(meth)
+        self_t = Sym('self', cname)
+        outs = ctx.ev.run(fi, {'self': self_t}, self_cls=c)
+        n += 1
+        if len(outs) == 1 and outs[0].kind == 'return' and outs[0].value == self_t:
+            r.ok(f'{cname}.{meth} -> self')
+        else:
+            r.fail(f'{cname}.{meth}', f'a constant predicate does not answer a substitution with itself: {[str(o)[:60] for o in outs]}', fi.where)
+    r.floor('substitution paths', n, 8)
+    return r
+
+
+def BoundMethodOf(ctx: Ctx, recv: Term, name: str):
+    return Attr(recv, name)
+
+
 # ------------------------------------------------------------------------ R5
 def R5(ctx: Ctx) -> RuleResult:
     r = RuleResult('R5', "replace_this_with_var builds '@' + alias (the token whose name strips the '@'); both wrappers call the matching replace_* method; leaf overrides substitute exactly the matching node")
@@ -1157,4 +1239,4 @@ def R6(ctx: Ctx) -> RuleResult:
     return r
 
 
-RULES = {'R1': R1, 'R2': R2, 'R3': R3, 'R4': R4, 'R4b': R4b, 'R5': R5, 'R6': R6}
+RULES = {'R1': R1, 'R2': R2, 'R3': R3, 'R4': R4, 'R4b': R4b, 'R5': R5, 'R5b': R5b, 'R6': R6}
